@@ -1,11 +1,11 @@
 (* Props/C12.v -- property C12: linear algebra over dual numbers differentiates implicitly defined results.
    Statements about the hand model Hand/LinAlg.v of src/linalg.rs (executed in Coq on binary64 against the implementation).  The identities are
    identities of the RING of dual numbers, so each holds in the real part and in every derivative part at once.  Sizes are arbitrary.
-   NOT proved: that the elimination loop yields factors with P A = L U, the determinant and inverse routines, the Jacobi iteration, and nalgebra's
-   decompositions -- decided by the correspondence (LU, solve, determinant, inverse, norm) and by the defining identities checked on the implementation.
+   NOT proved: the determinant and inverse routines, the Jacobi iteration, and nalgebra's decompositions -- decided by the correspondence (determinant,
+   inverse, norm) and by the defining identities checked on the implementation.
    Only `exact` proofs here. *)
 From Coq Require Import List Arith Ring.
-From ND Require Import Tactics LinAlg C12_proofs.
+From ND Require Import Tactics LinAlg C12_proofs C12_lu.
 From NDgen Require Import Classes.
 Local Open Scope R_scope.
 
@@ -48,6 +48,45 @@ Theorem C12_solve_Dual : forall (l : lu (T:=Dual R)) (b : list (Dual R)), (foral
     (forall i, (i < length b)%nat -> sum_list (fun k => (mg a i k * vg x k)%rs) (range i (length b)) = vg y i).
 Proof. exact solve_correct_Dual. Qed.
 
+(* ---- the whole of LU::new and LU::solve, any size, with pivoting: P A = L U and A x = b ---- *)
+Section AnyRingLU.
+  Context {F T : Type} {dn : DN F T}.
+  Hypothesis RT : ring_theory (Overload.zero : T) (Overload.one : T) (@hadd T T T dn_add) (@hmul T T T dn_mul) (@hsub T T T dn_sub) (@hneg T T dn_neg) eq.
+  Variable isunit : T -> Prop.
+  Hypothesis div_mul : forall x y : T, isunit y -> ((x / y) * y)%rs = x.
+  #[local] Instance flF_props : FL F := @flF_la F T dn.
+  Hypothesis nz_zero : nt_is_zero (Overload.zero : F) = true.
+  Hypothesis pivot_unit : forall x : T, nt_is_zero (m_re (m_abs x) : F) = false -> isunit x.
+  (* when LU::new succeeds, the stored factors satisfy P A = L U entry by entry (L unit lower triangular below the diagonal, U on and above it), the diagonal
+     consists of units and the stored row order has entries below n *)
+  Theorem C12_factorisation : forall n (A : list (list T)) l, is_mat n A -> lu_new A = Some l ->
+    is_mat n (lu_a l) /\ length (lu_p l) = n /\ (forall r, (r < n)%nat -> (nth r (lu_p l) O < n)%nat) /\ (forall r, (r < n)%nat -> isunit (mg (lu_a l) r r)) /\
+    forall r c, (r < n)%nat -> (c < n)%nat ->
+      mg A (nth r (lu_p l) O) c = (sum_list (fun k => mg (lu_a l) r k * mg (lu_a l) k c) (range 0 (Nat.min r (S c))) + (if Nat.leb r c then mg (lu_a l) r c else (Overload.zero : T)))%rs.
+  Proof. exact (fun n A => lu_new_factorises RT isunit div_mul n A nz_zero pivot_unit). Qed.
+  (* and LU::solve returns x with A x = b, row by row *)
+  Theorem C12_solve_correct : forall (A : list (list T)) (b : list T) l, is_mat (length A) A -> length b = length A -> lu_new A = Some l ->
+    length (lu_solve l b) = length A /\ forall i, (i < length A)%nat -> sum_list (fun c => (mg A i c * vg (lu_solve l b) c)%rs) (range 0 (length A)) = vg b i.
+  Proof. exact (lu_solve_Ax_eq_b RT isunit div_mul nz_zero pivot_unit). Qed.
+End AnyRingLU.
+
+(* for the dual number types over R: A x = b in the real part and in every derivative part at once (equality of dual numbers) *)
+Theorem C12_Ax_eq_b_Dual : forall (A : list (list (Dual R))) b l, is_mat (length A) A -> length b = length A -> lu_new A = Some l ->
+  length (lu_solve l b) = length A /\ forall i, (i < length A)%nat -> sum_list (fun c => (mg A i c * vg (lu_solve l b) c)%rs) (range 0 (length A)) = vg b i.
+Proof. exact lu_solve_Dual. Qed.
+Theorem C12_Ax_eq_b_Dual2 : forall (A : list (list (Dual2 R))) b l, is_mat (length A) A -> length b = length A -> lu_new A = Some l ->
+  length (lu_solve l b) = length A /\ forall i, (i < length A)%nat -> sum_list (fun c => (mg A i c * vg (lu_solve l b) c)%rs) (range 0 (length A)) = vg b i.
+Proof. exact lu_solve_Dual2. Qed.
+Theorem C12_Ax_eq_b_Dual3 : forall (A : list (list (Dual3 R))) b l, is_mat (length A) A -> length b = length A -> lu_new A = Some l ->
+  length (lu_solve l b) = length A /\ forall i, (i < length A)%nat -> sum_list (fun c => (mg A i c * vg (lu_solve l b) c)%rs) (range 0 (length A)) = vg b i.
+Proof. exact lu_solve_Dual3. Qed.
+Theorem C12_Ax_eq_b_HyperDual : forall (A : list (list (HyperDual R))) b l, is_mat (length A) A -> length b = length A -> lu_new A = Some l ->
+  length (lu_solve l b) = length A /\ forall i, (i < length A)%nat -> sum_list (fun c => (mg A i c * vg (lu_solve l b) c)%rs) (range 0 (length A)) = vg b i.
+Proof. exact lu_solve_HyperDual. Qed.
+Theorem C12_Ax_eq_b_HyperHyperDual : forall (A : list (list (HyperHyperDual R))) b l, is_mat (length A) A -> length b = length A -> lu_new A = Some l ->
+  length (lu_solve l b) = length A /\ forall i, (i < length A)%nat -> sum_list (fun c => (mg A i c * vg (lu_solve l b) c)%rs) (range 0 (length A)) = vg b i.
+Proof. exact lu_solve_HHD. Qed.
+
 (* a pivot column whose real parts all vanish is reported *)
 Theorem C12_singular_detected : forall (l : lu (T:=Dual R)) n i, (forall k, m_re (m_abs (mg (lu_a l) k i)) = 0) -> lu_step (Some l) n i = None.
 Proof. exact singular_detected. Qed.
@@ -56,5 +95,5 @@ Proof. exact singular_detected. Qed.
 Example C12_example : forall i, (i < 2)%nat -> m_re (mg ((mkDual 2 1 :: mkDual 1 0 :: nil) :: (mkDual 0.5 0 :: mkDual 3 1 :: nil) :: nil) i i) <> 0.
 Proof. exact example_c12. Qed.
 
-Definition C12_bundle := (@C12_forward_substitution, @C12_back_substitution, @C12_solve_is_both, C12_rings, C12_units, C12_solve_Dual, C12_singular_detected).
+Definition C12_bundle := (@C12_forward_substitution, @C12_back_substitution, @C12_solve_is_both, C12_rings, C12_units, C12_solve_Dual, C12_singular_detected, @C12_factorisation, @C12_solve_correct, C12_Ax_eq_b_Dual, C12_Ax_eq_b_Dual2, C12_Ax_eq_b_Dual3, C12_Ax_eq_b_HyperDual, C12_Ax_eq_b_HyperHyperDual).
 Print Assumptions C12_bundle.
